@@ -69,6 +69,11 @@ func (h *initErrorHandler) ServeHTTP(writer http.ResponseWriter, request *http.R
 	}
 
 	if err := interopServer.SendInitErrorResponse(response); err != nil {
+		if _, tooLarge := err.(*interop.ErrorResponseTooLarge); tooLarge {
+			// refused by the server because it could not be delivered later: tell the runtime, like for an oversized response
+			rendering.RenderRequestEntityTooLarge(writer, request)
+			return
+		}
 		rendering.RenderInteropError(writer, request, err)
 		return
 	}
